@@ -29,7 +29,7 @@ CLAIMED["C04"] = dict(
    note="Trusts: the atomic-turn + prefix-visibility model, the monitors' reading of executor state through the verif accessors, scenario templates that are deadlock-free by construction (every receive has a matching send). Transport loss/duplication is not injected because the real channels cannot produce it.",
    technique="deterministic simulation: seeded interleaving search with history oracle (receive logs) and per-step conservation/FIFO/wake-up invariants")
 CLAIMED["C15"] = dict(
-   text="The injected fault is a process failure: a victim fails at a generated point (builtin domain errors, missing file, ownership violation, injected backend write error, spawn/send/nested-select inside a receive filter) inside a generated system of by-standers, direct and transitive single-source awaiters that await before, during or after the failure, and senders to the victim. Under every sampled schedule/configuration the by-standers and senders must end with their model results, every transitive awaiter with exactly the victim's error, the client with its value or that error; any panic or Err from Worker::step/Environment::step, any hang, and any abnormal child-process death is a violation. Pollers that listed the victim once in a non-blocking select and no longer await it when it fails (one already finished, one alive) must keep their normal results; out-of-domain calls of pure builtins and an effect result over the binary size limit are among the failure points; REPL sessions with ill-behaved lines (nil-cut lines, top-level tail calls, a polled process failing while the session sleeps) must survive. A multi-source selector racing the victim's failure against a message is counted, not judged (either outcome is legal). Sampling, not proof.",
+   text="The injected fault is a process failure: a victim fails at a generated point (builtin domain errors, missing file, ownership violation, injected backend write error, spawn/send/nested-select inside a receive filter) inside a generated system of by-standers, direct and transitive single-source awaiters that await before, during or after the failure, and senders to the victim. Under every sampled schedule/configuration the by-standers and senders must end with their model results, every transitive awaiter with exactly the victim's error, the client with its value or that error; any panic or Err from Worker::step/Environment::step, any hang, and any abnormal child-process death is a violation. Pollers that listed the victim once in a non-blocking select and no longer await it when it fails (one already finished, one alive) must keep their normal results; out-of-domain calls of pure builtins and an effect result over the binary size limit are among the failure points; REPL sessions with ill-behaved lines (nil-cut lines, top-level tail calls, a polled process failing while the session sleeps) must survive. A process whose one select races the victim's failure against a message or timeout (also with an effect in flight) must end with its value or the victim's error, nothing else. Sampling, not proof.",
    ref="DESIGN.md §6 C15",
    note="Trusts: scenario templates and their host-side expectations, the SimBackend's model of open/read/write errors, the atomic-turn model. Only failure kinds in the template list are placed (32 out-of-domain builtin calls taken from a probe of 4084 edge calls that found no panic); systematic builtin boundary-value search stays out of scope (C12, n/a).",
    technique="deterministic simulation with fault injection (process failure as the fault): seeded interleaving search with per-process outcome oracle and panic/Err/hang detection")
